@@ -435,3 +435,32 @@ divider_pack = _inherited_pack("Divider", DIVIDER, (Sizing.FLOW,), divider_rows,
 divider_sizing = _inherited_sizing("Divider", DIVIDER, (Sizing.FLOW,))
 solidfill_pack = _inherited_pack("SolidFill", SOLIDFILL, (Sizing.BOX,), None, lambda s: True)
 solidfill_sizing = _inherited_sizing("SolidFill", SOLIDFILL, (Sizing.BOX,))
+
+
+# ============================================================================================ ProgressBar
+from urwid.widget import progress_bar as _pb  # noqa: E402
+
+PROGRESSBAR = Obj(_pb.ProgressBar, {})
+
+
+@contract("urwid/widget/progress_bar.py:ProgressBar.rows", property="C01", replayable=False)
+class progressbar_rows:
+    """One row at every width.  (ProgressBar.render -- a one-line clipped Text canvas whose bytes and attribute runs are
+    rewritten in place -- is not under contract: see the report.)"""
+    self_shape = PROGRESSBAR
+    params = dict(size=FLOWSIZE, focus=Bool)
+    result = Int
+    raises = ()
+
+    def requires(s, a):
+        return size_ok(a.size)
+
+    def ensures(old, s, a, result):
+        yield "exactly-one-row", result == 1
+
+    def pure_spec(old, a):
+        return 1
+
+
+progressbar_pack = _inherited_pack("ProgressBar", PROGRESSBAR, (Sizing.FLOW,), progressbar_rows, lambda s: True)
+progressbar_sizing = _inherited_sizing("ProgressBar", PROGRESSBAR, (Sizing.FLOW,))
